@@ -181,7 +181,9 @@ pub open spec fn written(s: Status, pre: HMap, post: HMap) -> bool { written_sta
 // READING: total; what from_header_map must answer for ANY header map
 pub open spec fn msg_ok(h: HMap) -> bool { !h.contains_key("grpc-message"@) || utf8_valid(pct_dec(h["grpc-message"@][0])) }
 pub open spec fn det_ok(h: HMap) -> bool { !h.contains_key("grpc-status-details-bin"@) || b64_dec(h["grpc-status-details-bin"@][0]) is Some }
-pub open spec fn read(h: HMap, r: Option<Status>) -> bool {
+// what reading a status from headers yields, in two parts (so that a break of the status fields is not reported for C08, nor a
+// break of the metadata hand-over for the status fields): the status proper ..
+pub open spec fn read_status(h: HMap, r: Option<Status>) -> bool {
     &&& r is None <==> !h.contains_key("grpc-status"@)
     &&& r matches Some(st) ==> {
         &&& msg_ok(h) && det_ok(h) ==> {
@@ -190,9 +192,13 @@ pub open spec fn read(h: HMap, r: Option<Status>) -> bool {
             &&& st.details@ == (if h.contains_key("grpc-status-details-bin"@) { b64_dec(h["grpc-status-details-bin"@][0])->Some_0 } else { Seq::<u8>::empty() })
         }
         &&& !(msg_ok(h) && det_ok(h)) ==> st.code == Code::Unknown
-        &&& st.metadata.headers@ =~= h.remove("grpc-status"@).remove("grpc-message"@).remove("grpc-status-details-bin"@)
     }
 }
+// .. and every other header, which becomes the metadata of the status - whatever the status fields looked like
+pub open spec fn read_rest(h: HMap, r: Option<Status>) -> bool {
+    r matches Some(st) ==> st.metadata.headers@ =~= h.remove("grpc-status"@).remove("grpc-message"@).remove("grpc-status-details-bin"@)
+}
+pub open spec fn read(h: HMap, r: Option<Status>) -> bool { read_status(h, r) && read_rest(h, r) }
 // ROUND TRIP (C04): a status written into an empty map and read back is the same status; its metadata comes back minus
 // the reserved names. (Metadata that itself uses one of the three status header names is outside this lemma.)
 pub proof fn lemma_status_roundtrip(s: Status, h: HMap, r: Option<Status>)
@@ -299,11 +305,12 @@ CONTRACTS = {
         ('H3_no_body', 'r.body == B::default_spec()', ['C03', 'C12']),
     ],
     'to_header_map': [('M1_written_from_empty', 'r matches Ok(h) && written(*self, %s, h@)' % EMPTY, ['C04', 'C03', 'C02'])],
-    'from_header_map': [('R1_total_and_exact', 'read(header_map@, r)', ['C04', 'C02'])],
+    'from_header_map': [('R1_total_and_exact', 'read_status(header_map@, r)', ['C04', 'C02', 'C20']),
+                        ('R2_every_other_header_becomes_the_metadata_of_the_status', 'read_rest(header_map@, r)', ['C04', 'C02', 'C08'])],
     'add_header': [
         ('A1_never_fails_values_always_legal', 'r is Ok', ['C04', 'C03', 'C12']),
         # two clauses, so that a break of the status fields is not reported for C08 (metadata), nor the other way round
-        ('A2_written', 'written_status(*self, final(header_map)@)', ['C04', 'C03', 'C02', 'C12']),
+        ('A2_written', 'written_status(*self, final(header_map)@)', ['C04', 'C03', 'C02', 'C12', 'C20']),
         ('A3_user_metadata_written_and_every_other_header_untouched', 'written_rest(*self, old(header_map)@, final(header_map)@)', ['C04', 'C03', 'C08', 'C02', 'C12']),
     ],
     'infer_grpc_status': [
@@ -395,7 +402,7 @@ pub mod status {
             %s,
     { unimplemented!() }
 }
-''' % (ctors, EMPTY, _ens(CONTRACTS['into_http']), _ens(CONTRACTS['to_header_map']), _ens(CONTRACTS['from_header_map']),
+''' % (ctors, EMPTY, _ens(CONTRACTS['into_http']), _ens(CONTRACTS['to_header_map']), _ens(CONTRACTS['from_header_map']) + ',\n            read(header_map@, r)',
        _ens(CONTRACTS['add_header']), _ens(CONTRACTS['infer_grpc_status'])))
 
 
